@@ -251,6 +251,7 @@ fn case(rng: &mut Rng, ctx: &mut Ctx, forced: Option<(&str, Vec<u8>)>) {
     let enc = *rng.pick(Enc::all());
     let prost = rng.chance(1, 3);
     let request = rng.bool();
+    let http = if request || rng.chance(3, 4) { 200 } else { *rng.pick(&[400u16, 404, 429, 500, 503]) };
     let limit_opt = match rng.below(4) {
         0 => Some(*rng.pick(&[0usize, 1, 5, 64, 300, 4096])),
         _ => None,
@@ -304,17 +305,24 @@ fn case(rng: &mut Rng, ctx: &mut Ctx, forced: Option<(&str, Vec<u8>)>) {
     }
     // body error injection
     let mut injected: Option<tonic::Code> = None;
+    let mut unfused = false;
     let mut delivered = wire.clone();
     if m == "body-error" || rng.chance(1, 12) {
         // an error after the trailers frame can never be observed: inject before it
         let upto = steps.iter().position(|s| matches!(s, BStep::Trailers(_))).unwrap_or(steps.len());
         let at = rng.usize_below(upto + 1);
         let code = *rng.pick(&[tonic::Code::Cancelled, tonic::Code::Internal, tonic::Code::Unavailable, tonic::Code::Unknown, tonic::Code::DeadlineExceeded]);
-        steps.truncate(at);
-        steps.push(BStep::Err(code, "injected".into()));
+        if rng.bool() {
+            // un-fused body: the scripted frames after the error are still there if polled again
+            unfused = true;
+            steps.insert(at, BStep::Err(code, "injected".into()));
+        } else {
+            steps.truncate(at);
+            steps.push(BStep::Err(code, "injected".into()));
+        }
         injected = Some(code);
-        delivered = steps.iter().flat_map(|s| if let BStep::Data(d) = s { d.clone() } else { vec![] }).collect();
-        if !steps.iter().any(|s| matches!(s, BStep::Trailers(_))) {
+        delivered = steps.iter().take(at).flat_map(|s| if let BStep::Data(d) = s { d.clone() } else { vec![] }).collect();
+        if !steps.iter().take(at).any(|s| matches!(s, BStep::Trailers(_))) {
             trailer_code = None;
             trailers_garbage = false;
         }
@@ -322,21 +330,24 @@ fn case(rng: &mut Rng, ctx: &mut Ctx, forced: Option<(&str, Vec<u8>)>) {
     let class = format!("{}-{}", m, if request { "req" } else { "resp" });
     let case_json = json!({"mutation": m, "enc": enc.name(), "codec": if prost {"prost"} else {"raw"}, "dir": if request {"request"} else {"response"},
         "limit": limit_opt, "buffer_size": bs, "wire": short(&wire), "wire_len": wire.len(), "cut_style": format!("{:?}", style), "cuts": cuts.len(),
-        "trailers": trailers_kind, "injected_body_error": injected.map(|c| format!("{:?}", c))});
+        "trailers": trailers_kind, "http_status": http, "injected_body_error": injected.map(|c| format!("{:?}", c))});
     ctx.begin(&class, case_json.clone());
     ctx.count(&format!("mut.{}", m));
     ctx.count(if request { "dir.request" } else { "dir.response" });
 
     let exp = expect(&delivered, enc, limit, prost);
-    let dir = if request { Dir::Request } else { Dir::Response(200) };
+    let dir = if request { Dir::Request } else { Dir::Response(http) };
     let eager = rng.bool();
+    if http != 200 {
+        ctx.count("dir.response_non200");
+    }
 
     // run and reduce to (yielded payload bytes, terminal kinds)
     let (yielded, seq_kinds, first_err_code, stalled, budget, busy, after_end): (Vec<Vec<u8>>, Vec<u8>, Option<tonic::Code>, bool, bool, bool, usize) = if prost {
-        let out = decode_run(ProstCodec::<Msg, Msg>::raw_decoder(BufferSettings::new(bs, 32768)), steps, dir, enc, limit_opt, 8, eager, false);
+        let out = decode_run_opts(ProstCodec::<Msg, Msg>::raw_decoder(BufferSettings::new(bs, 32768)), steps, dir, enc, limit_opt, 8, eager, false, unfused);
         reduce(&out, |m: &Msg| ref_pb_encode(&m.data, m.seq, &m.tag))
     } else {
-        let out = decode_run(RawDecoder { bs: (bs, 32768) }, steps, dir, enc, limit_opt, 8, eager, false);
+        let out = decode_run_opts(RawDecoder { bs: (bs, 32768) }, steps, dir, enc, limit_opt, 8, eager, false, unfused);
         reduce(&out, |m: &Vec<u8>| m.clone())
     };
     ctx.max("max.body_polls_after_end", after_end as u64);
@@ -375,7 +386,9 @@ fn case(rng: &mut Rng, ctx: &mut Ctx, forced: Option<(&str, Vec<u8>)>) {
             let cancel_exception = request && injected == Some(tonic::Code::Cancelled);
             // a request body failing with CANCELLED is tonic's "client went away" = end of stream
             let must_fail = !cancel_exception && (!exp.wellformed || injected.is_some()
-                || (!request && injected.is_none() && (trailers_garbage || matches!(trailer_code, Some(c) if c != 0))));
+                || (!request && injected.is_none() && (trailers_garbage || matches!(trailer_code, Some(c) if c != 0)))
+                // a non-200 response without any grpc-status cannot be a success
+                || (http != 200 && trailer_code.is_none() && !trailers_garbage));
             let may_fail = must_fail || cancel_exception || !all_canonical;
             if kind == 1 {
                 // clean end
